@@ -507,3 +507,42 @@ Proof.
   - intros t n. apply (nk_wf_code_nat K1 K2 c1 c2 f Hf).
   - intros n. apply nk_abs_nat.
 Qed.
+
+(* ------------------------------------------------------------------ the two correspondences of name trees are one *)
+Lemma nk_view_node_is_rename : forall n, nk_view_node n = nk_mnode (list N) (list N) nk_utf8_value n.
+Proof.
+  induction n as [l items|l kids IH] using (nnode_ind' (list N)); cbn [nk_view_node nk_mnode].
+  - reflexivity.
+  - f_equal; try reflexivity; apply map_ext_Forall; exact IH.
+Qed.
+
+(* M4.  What the harness runs on stored strings (nk_run_raw, shown through nk_view_node / getUTF8Value) is, call by
+   call - result, warnings, whole tree -, the run of the same history on texts (the older name-tree correspondence). *)
+Lemma nk_run_raw_view_lemma : forall (t : Z) (root : nnode (list N)) (ops : list (nnop (list N))),
+  map (fun x : nnres (list N) * Z * nnode (list N) =>
+         (nk_mres (list N) (list N) nk_utf8_value (fst (fst x)), snd (fst x), nk_view_node (snd x)))
+      (nk_run_raw t root ops) =
+  nn_run (list N) nn_scmp t (nk_view_node root) (map (nk_mop (list N) (list N) nk_utf8_value) ops).
+Proof.
+  intros t root ops. unfold nk_run_raw. rewrite nk_view_node_is_rename.
+  rewrite (nk_run_nat (list N) (list N) nk_compare_names nn_scmp nk_utf8_value (fun a b => eq_refl)).
+  apply map_ext. intros [[r w] n]. unfold nk_mout. cbn [fst snd]. rewrite nk_view_node_is_rename. reflexivity.
+Qed.
+
+(* M5 (refutation of the literal statement on stored strings, and what happens instead).  Inserting a key whose text is
+   already present in ANOTHER spelling replaces the value and keeps the stored spelling: the result names the old string
+   object, where a sorted map over stored strings would hold and return the new one.  Read through getUTF8Value the two
+   agree (nk_names_refine_map_quotient). *)
+Lemma nk_names_literal_refuted_lemma :
+  let root := NLeaf None [([239; 187; 191; 97]%N, 1)] in
+  let op := OpInsert [97]%N 2 in
+  wf_code (list N) nk_compare_names 3 root = 0 /\
+  nn_step (list N) nk_compare_names 3 op (nn_init (list N) root) =
+    (RIter (Some ([239; 187; 191; 97]%N, 2)), NNSt (list N) (NLeaf None [([239; 187; 191; 97]%N, 2)]) [] 0 0) /\
+  fst (sm_step (list N) nk_compare_names op (nk_init_sm root)) = RIter (Some ([97]%N, 2)) /\
+  fst (nn_step (list N) nk_compare_names 3 op (nn_init (list N) root)) <>
+  fst (sm_step (list N) nk_compare_names op (nk_init_sm root)).
+Proof.
+  cbv zeta. split; [vm_compute; reflexivity|]. split; [vm_compute; reflexivity|]. split; [vm_compute; reflexivity|].
+  vm_compute. discriminate.
+Qed.
